@@ -35,6 +35,9 @@ fn main() {
         runner::cleanup_scratch();
         std::process::exit(code);
     }
+    if property == "C37" {
+        std::process::exit(vmc::c37::run(&tier, &mut out));
+    }
     if property == "C36" {
         std::process::exit(vmc::c36::run(&tier, &mut out));
     }
